@@ -151,13 +151,83 @@ pub closed spec fn marks_superset(a: DailyMutations, b: DailyMutations) -> bool 
             marks_superset(*old(daily_log), *final(daily_log)),
 //@ end
 
+/// the buckets a prepared entity changes by its own row are marked: the bucket the row enters and the bucket its replaced version leaves
+pub open spec fn own_marked(e: InsertEntity, dm: DailyMutations) -> bool {
+    (e.node_to_mutate.room_id is Some && e.node_to_mutate.node is Some ==>
+        marked(dm, e.node_to_mutate.room_id->Some_0, e.node_to_mutate.node->Some_0._entity@, spec_day(e.node_to_mutate.date)))
+    && (e.node_to_mutate.room_id is Some && e.node_to_mutate.old_node is Some && e.node_to_mutate.old_node->Some_0.room_id is Some ==>
+        marked(dm, e.node_to_mutate.old_node->Some_0.room_id->Some_0, e.node_to_mutate.old_node->Some_0._entity@, spec_day(e.node_to_mutate.old_node->Some_0.mdate)))
+}
+pub open spec fn all_own_marked(v: Seq<InsertEntity>, n: int, dm: DailyMutations) -> bool { forall|j: int| 0 <= j < n ==> #[trigger] own_marked(v[j], dm) }
+pub open spec fn outer_marked(seq: Seq<(&String, &Vec<InsertEntity>)>, n: int, dm: DailyMutations) -> bool {
+    forall|i: int| 0 <= i < n ==> #[trigger] all_own_marked(seq[i].1@, seq[i].1@.len() as int, dm)
+}
+pub open spec fn subs_marked(m: Map<String, Vec<InsertEntity>>, dm: DailyMutations) -> bool {
+    forall|k: String| #[trigger] m.contains_key(k) ==> all_own_marked(m[k]@, m[k]@.len() as int, dm)
+}
+broadcast proof fn lemma_outer_marked_mono(seq: Seq<(&String, &Vec<InsertEntity>)>, n: int, a: DailyMutations, b: DailyMutations)
+    requires #[trigger] outer_marked(seq, n, a), #[trigger] marks_superset(a, b),
+    ensures outer_marked(seq, n, b),
+{
+    assert forall|i: int| 0 <= i < n implies #[trigger] all_own_marked(seq[i].1@, seq[i].1@.len() as int, b) by {
+        assert(all_own_marked(seq[i].1@, seq[i].1@.len() as int, a));
+        lemma_own_marked_mono(seq[i].1@, seq[i].1@.len() as int, a, b);
+    }
+}
+broadcast proof fn lemma_subs_marked_mono(m: Map<String, Vec<InsertEntity>>, a: DailyMutations, b: DailyMutations)
+    requires #[trigger] subs_marked(m, a), #[trigger] marks_superset(a, b),
+    ensures subs_marked(m, b),
+{
+    assert forall|k: String| #[trigger] m.contains_key(k) implies all_own_marked(m[k]@, m[k]@.len() as int, b) by {
+        assert(all_own_marked(m[k]@, m[k]@.len() as int, a));
+        lemma_own_marked_mono(m[k]@, m[k]@.len() as int, a, b);
+    }
+}
+proof fn lemma_outer_covers(m: Map<String, Vec<InsertEntity>>, seq: Seq<(&String, &Vec<InsertEntity>)>, n: int, dm: DailyMutations)
+    ensures (n == seq.len() && iter_covers(m, seq) && outer_marked(seq, n, dm)) ==> subs_marked(m, dm),
+{
+    if n == seq.len() && iter_covers(m, seq) && outer_marked(seq, n, dm) {
+    assert forall|k: String| #[trigger] m.contains_key(k) implies all_own_marked(m[k]@, m[k]@.len() as int, dm) by {
+        let i = choose|i: int| 0 <= i < seq.len() && *(#[trigger] seq[i]).0 == k;
+        assert(all_own_marked(seq[i].1@, seq[i].1@.len() as int, dm));
+        assert(m[k] == *seq[i].1);
+    }
+    }
+}
+broadcast proof fn lemma_marks_plus_superset(a: DailyMutations, b: DailyMutations, room: Uid, entity: Seq<char>, t: i64)
+    requires #[trigger] marks_plus(a, b, room, entity, t),
+    ensures marks_superset(a, b),
+{
+}
+broadcast proof fn lemma_own_marked_mono(v: Seq<InsertEntity>, n: int, a: DailyMutations, b: DailyMutations)
+    requires #[trigger] all_own_marked(v, n, a), #[trigger] marks_superset(a, b),
+    ensures all_own_marked(v, n, b),
+{
+    assert forall|j: int| 0 <= j < n implies #[trigger] own_marked(v[j], b) by { assert(own_marked(v[j], a)); }
+}
 //@ extract src/database/mutation_query.rs :: impl InsertEntity / fn update_daily_logs
 //@ attr #[verifier::exec_allows_no_decreases_clause]
 //@ attr #[verifier::loop_isolation(false)]
+//@ insert body-start
+        broadcast use {lemma_own_marked_mono, lemma_outer_marked_mono, lemma_subs_marked_mono, lemma_marks_plus_superset};
 //@ loop "for query in &self.sub_nodes" iter itq
             invariant marks_superset(*old(daily_log), *daily_log),
+                iter_covers(self.sub_nodes@, itq.seq()),
+                // [nested_entities_marked_so_far]
+                outer_marked(itq.seq(), itq.index@ as int, *daily_log),
+                itq.index@ == itq.seq().len() ==> subs_marked(self.sub_nodes@, *daily_log),
 //@ loop "for insert in query.1" iter iti
                 invariant marks_superset(*old(daily_log), *daily_log),
+                    iti.seq().len() == query.1@.len(), forall|j: int| 0 <= j < iti.seq().len() ==> *(#[trigger] iti.seq()[j]) == query.1@[j],
+                    all_own_marked(query.1@, iti.index@ as int, *daily_log),
+                    outer_marked(itq.seq(), itq.index@ as int, *daily_log),
+//@ insert after-stmt "for insert in query.1"
+            proof {
+                assert(itq.seq()[itq.index@ as int].1@ == query.1@);
+                assert(all_own_marked(itq.seq()[itq.index@ as int].1@, itq.seq()[itq.index@ as int].1@.len() as int, *daily_log));
+                assert(outer_marked(itq.seq(), itq.index@ as int + 1, *daily_log));
+                lemma_outer_covers(self.sub_nodes@, itq.seq(), itq.index@ as int + 1, *daily_log);
+            }
 //@ loop "for edg in &self.edge_deletions_log" iter it
             invariant
                 marks_superset(*old(daily_log), *daily_log),
@@ -165,6 +235,7 @@ pub closed spec fn marks_superset(a: DailyMutations, b: DailyMutations) -> bool 
                     marked(*daily_log, self.node_to_mutate.room_id->Some_0, self.node_to_mutate.node->Some_0._entity@, spec_day(self.node_to_mutate.date)),
                 self.node_to_mutate.room_id is Some && self.node_to_mutate.old_node is Some && self.node_to_mutate.old_node->Some_0.room_id is Some ==>
                     marked(*daily_log, self.node_to_mutate.old_node->Some_0.room_id->Some_0, self.node_to_mutate.old_node->Some_0._entity@, spec_day(self.node_to_mutate.old_node->Some_0.mdate)),
+                subs_marked(self.sub_nodes@, *daily_log),
                 forall|i: int| 0 <= i < it.index@ ==> marked(*daily_log, (#[trigger] self.edge_deletions_log@[i]).room_id, self.edge_deletions_log@[i].src_entity@, spec_day(self.edge_deletions_log@[i].deletion_date)),
 //@ spec
         ensures
@@ -176,6 +247,8 @@ pub closed spec fn marks_superset(a: DailyMutations, b: DailyMutations) -> bool 
                 marked(*final(daily_log), self.node_to_mutate.old_node->Some_0.room_id->Some_0, self.node_to_mutate.old_node->Some_0._entity@, spec_day(self.node_to_mutate.old_node->Some_0.mdate)),
             // [local_write_marks_reference_tombstones] and the day every reference tombstone enters
             forall|i: int| 0 <= i < self.edge_deletions_log@.len() ==> marked(*final(daily_log), (#[trigger] self.edge_deletions_log@[i]).room_id, self.edge_deletions_log@[i].src_entity@, spec_day(self.edge_deletions_log@[i].deletion_date)),
+            // [local_write_marks_nested_entities] every entity nested under a field of the mutation has its own buckets marked too (the recursion reaches it; applied at every level this covers the whole tree)
+            subs_marked(self.sub_nodes@, *final(daily_log)),
             // [local_write_keeps_marks]
             marks_superset(*old(daily_log), *final(daily_log)),
 //@ end
